@@ -29,6 +29,7 @@ import (
 	"github.com/kardiachain/go-kardia/lib/common"
 	"github.com/kardiachain/go-kardia/lib/crypto"
 	"github.com/kardiachain/go-kardia/lib/log"
+	"github.com/kardiachain/go-kardia/trie"
 	"github.com/kardiachain/go-kardia/types"
 
 	stypes "github.com/kardiachain/go-kardia/mainchain/staking/types"
@@ -94,7 +95,9 @@ func (blockExec *BlockExecutor) SetEventBus(b *types.EventBus) {
 func (blockExec *BlockExecutor) ValidateBlock(state LatestBlockState, block *types.Block) error {
 	hash := validationKey(block)
 	if _, ok := blockExec.cache[hash]; ok {
-		return nil
+		// The key covers the header and the last commit only: the body (transactions,
+		// evidence, commit signatures) is bound to the header by ValidateBasic alone.
+		return block.ValidateBasic(trie.NewStackTrie(nil))
 	}
 
 	if err := validateBlock(blockExec.evpool, blockExec.store, state, block); err != nil {
